@@ -183,3 +183,21 @@ func H_C18_InitialWatch() {
 	vrt.Assert(mx <= 1, "queue-limit-exceeded")
 	vrt.Assert(o0 == 0, "limit1-order")
 }
+
+// H_C18_WaitIdleErrCh: WaitIdle with an error channel on which a nil error is already pending
+// (the "routine finished without error" idiom): a nil error is not a reason to return, so
+// WaitIdle still returns nil only once the enqueued jobs have finished.
+func H_C18_WaitIdleErrCh() {
+	var p queueProbe
+	q := conc.NewConcurrentQueue(1)
+	vrt.Go("prod", func() {
+		errCh := make(chan error, 1)
+		errCh <- nil
+		q.Enqueue(p.job(0), p.job(1))
+		err := q.WaitIdle(context.Background(), errCh)
+		vrt.Assert(err == nil, "waitidle-error")
+		var r0, r1 int
+		vrt.Atomic(func() { r0, r1 = p.runs[0], p.runs[1] })
+		vrt.Assert(r0 == 1 && r1 == 1, "waitidle-returned-before-jobs-finished")
+	})
+}
